@@ -354,6 +354,30 @@ def run_check(pid: str, tier: str, seed: int) -> int:
     cov["samples"] = samples[:6] or [{"note": "no bounded part"}]
     cov["rule"] = " | ".join(r["rule"] for r in b_rows)
 
+    # 4b. mutation self-test (thorough tier only, never when already running against a scratch copy): every stored seeded change that
+    # targets this property is applied to a scratch worktree and must make this check report a violation
+    if tier == "thorough" and not leanbuild.WORK and os.environ.get("VERIF_NO_SELFTEST") != "1":
+        import glob
+        rows = []
+        for meta_path in sorted(glob.glob(os.path.join(VERIF, "seeded", "*", "meta.json"))):
+            try:
+                meta = json.load(open(meta_path))
+            except Exception:  # noqa: BLE001
+                continue
+            if meta.get("breaks_property") != pid:
+                continue
+            patch = os.path.join(os.path.dirname(meta_path), "patch.diff")
+            try:
+                p = subprocess.run([os.path.join(VERIF, "bin", "with_scratch"), patch, "--", os.path.join(VERIF, "bin", "check"), pid, "--tier", "quick"],
+                                   capture_output=True, text=True, timeout=3600, env=dict(os.environ, VERIF_NO_SELFTEST="1"))
+                detected = "VIOLATION property=" + pid in p.stdout
+                rows.append({"seeded_change": meta["name"], "detected": detected, "with_replayed_input": detected and "no-failing-input-found" not in p.stdout})
+                if not detected:
+                    status["broken"].append(f"mutation self-test: seeded change {meta['name']} is not detected any more")
+            except subprocess.TimeoutExpired:
+                rows.append({"seeded_change": meta["name"], "detected": None, "note": "timed out"})
+        cov["mutation_self_test"] = rows
+
     # 5. verdict
     known = load_known()
     new_viol = []
